@@ -143,6 +143,8 @@ def run(ctx, rep):
         tj = N.tree_json(tree, nv, offset)
         case = dict(fn="genotype_to_phenotype_tree", n_variables=nv, input_block_size=block, offset=offset,
                     n_outputs=nout, output_activation=oact_name, tree=tj, tree_str=str(tree))
+        first = {}
+        case["same_object_as"] = [first.setdefault(id(n_), i_) for i_, n_ in enumerate(tree._nodes)]   # node-object sharing between positions
         key = (nv, block, offset, nout, str(tj))
         rep.count(family, key, nontrivial=len(tree) > 1)
         rep.hist("tree_nodes", len(tree))
@@ -154,7 +156,7 @@ def run(ctx, rep):
                         N.net_json(net), None, "C13_decode_valid")
         f_dec.add(f"(({nv}, {nout}, {oact})%nat, {N.gnodes_term(tree, nv, offset)}, {N.impl_net_term(net)})", case)
         f_val.add(N.impl_net_term(net), case)
-        if not do_forward or "incoming" in bad:
+        if not do_forward or bad:         # an invalid net (cycle, unreachable block) may make _get_order / forward loop
             return net
         X = x_for(ctx.rng, nv, offset)
         out = net.forward(X)
@@ -219,6 +221,38 @@ def run(ctx, rep):
         terms += [("hid", s, a) for s in (1, 2, 3) for a in range(5)]
         sh = N.random_shape(ctx.rng, ctx.rng.randint(1, 5), terms)
         one_tree(sh, nv, block, offset, ctx.rng.choice((1, 2, 3)), "decode-random", max_hidden=4)
+    # trees in which ONE node object occupies several positions: Tree.copy()/subtree()/concat() copy the node list, not the
+    # nodes, so after crossover / subtree mutation between relatives equal hidden blocks are the same Python object
+    for _ in range(ctx.pick(150, 1000)):
+        nv = ctx.rng.randint(2, 5)
+        offset = ctx.rng.random() < 0.5
+        block = ctx.rng.randint(1, 2)
+        n_dim = nv - 1 if offset else nv
+        if n_dim < 1:
+            continue
+        n_blocks = len(range(0, n_dim, block))
+        terms = [("in", k) for k in range(n_blocks)] + ([("bias",)] if offset else [])
+        terms += [("hid", s_, a_) for s_ in (1, 2) for a_ in (0, 1)] * 2
+        sh = N.random_shape(ctx.rng, ctx.rng.randint(2, 5), terms)
+        parts = N.uniset_parts(N.make_uniset(nv, block, offset, 3), offset)
+        fresh = N.tree_of_shape(sh, parts)
+        pool = {}
+        shared = [pool.setdefault((int(n_._value._size), int(n_._value._activ)), n_) if isinstance(n_, L["EphemeralConstantNode"]) else n_
+                  for n_ in fresh._nodes]
+        tree = L["Tree"](shared)
+        rep.hist("shared_node_positions", len(shared) - len({id(n_) for n_ in shared if isinstance(n_, L["EphemeralConstantNode"])})
+                 - sum(1 for n_ in shared if not isinstance(n_, L["EphemeralConstantNode"])))
+        one_tree(None, nv, block, offset, ctx.rng.choice((1, 2, 3)), "decode-shared-node-objects", tree=tree)
+        # and through the library's own variation path
+        if len(fresh) >= 3:
+            try:
+                j = ctx.rng.randrange(1, len(fresh))
+                i = ctx.rng.randrange(1, len(fresh))
+                varied = fresh.concat(i, fresh.copy().subtree(j))
+            except Exception:   # noqa: BLE001
+                varied = None
+            if varied is not None and len(varied) <= 31:
+                one_tree(None, nv, block, offset, ctx.rng.choice((1, 2, 3)), "decode-after-variation", tree=varied)
     # random trees from the library's own generator (what GP really produces)
     from thefittest.utils.random import numba_seed
     for _ in range(ctx.pick(100, 1000)):
@@ -445,6 +479,11 @@ def replay(ctx, rp) -> bool:
         return not bad
     if fn == "genotype_to_phenotype_tree":
         tree = N.tree_from_json(case["tree"], case["n_variables"], case["input_block_size"], case["offset"])
+        if case.get("same_object_as"):
+            hid = N.lib()["EphemeralConstantNode"]
+            nodes = list(tree._nodes)
+            nodes = [nodes[j] if isinstance(nodes[i], hid) else nodes[i] for i, j in enumerate(case["same_object_as"])]
+            tree = N.lib()["Tree"](nodes)
         net = N.lib()["g2p"](tree, case["n_variables"], case["n_outputs"], case["output_activation"], case["offset"])
         bad = N.py_valid(net, case["n_variables"], decoded=True)
         print("net:", N.net_json(net))
